@@ -20,7 +20,13 @@ pub fn health_once(port: u16, limit: Duration) -> Result<String, String> {
     let addr = srv_addr(port);
     let mut s = TcpStream::connect_timeout(&addr, limit).map_err(|e| format!("connect: {}", e))?;
     s.set_read_timeout(Some(limit)).unwrap();
-    let _ = s.write_all(b"GET / HTTP/1.0\r\n\r\n");
+    // every other check is a bare connect-and-read (what a TCP load-balancer probe does): the
+    // server, with nothing unread on the connection, then closes with FIN and keeps the
+    // connection in TIME_WAIT on its port; the others send an HTTP request first
+    static CALLS: std::sync::atomic::AtomicU64 = std::sync::atomic::AtomicU64::new(0);
+    if CALLS.fetch_add(1, std::sync::atomic::Ordering::Relaxed) % 2 == 0 {
+        let _ = s.write_all(b"GET / HTTP/1.0\r\n\r\n");
+    }
     let mut buf = Vec::new();
     let mut tmp = [0u8; 512];
     let t0 = Instant::now();
@@ -316,9 +322,15 @@ fn run_config(ctx: &Ctx, out: &mut Out, cfg0: &SrvCfg, rng: &mut Rng, tag: &str,
             cfg.pin = Some(if cfg0.seed[1] % 2 == 0 { "0".into() } else { "0,1".into() });
         }
         if !fixed_ports {
-            cfg.port = free_port(false);
+            // (health_check_port Some(2) = "the same number as the UDP port": TCP and UDP port
+            // spaces are separate, the documentation puts no such restriction on the two settings)
+            let same = cfg.health_check_port == Some(2);
+            cfg.port = free_port(same);
             if cfg.health_check_port.is_some() {
-                cfg.health_check_port = Some(free_port(true));
+                cfg.health_check_port = Some(if same { cfg.port } else { free_port(true) });
+            }
+            if same {
+                out.obs("configs_with_health_port_number_equal_to_udp_port", 1);
             }
         }
         let desc = json!({"kind":"server-config","config":cfg.describe()});
@@ -367,15 +379,54 @@ fn run_config(ctx: &Ctx, out: &mut Out, cfg0: &SrvCfg, rng: &mut Rng, tag: &str,
         }
         // orderly stop
         sp.signal(libc::SIGTERM);
-        match sp.wait_exit(Duration::from_secs(10)) {
+        let stopped = match sp.wait_exit(Duration::from_secs(10)) {
             Some((st, _)) => {
                 if st.code() != Some(0) {
                     out.obs("info_exit_nonzero_on_sigterm", 1);
                 }
+                true
             }
             None => {
                 out.obs("info_no_exit_10s_after_sigterm", 1);
                 sp.kill();
+                false
+            }
+        };
+        // a share of the configurations is started again at once on the same ports (a service
+        // manager restarting the unit): connections of the first run are still in TIME_WAIT
+        if stopped && !fixed_ports && (cfg0.seed[2] % 3 == 0 || (nworkers == 1 && cfg.health_check_port.is_some())) {
+            drop(sp);
+            let desc = json!({"kind":"server-config","config":cfg.describe(),"restart":"immediately on the same ports"});
+            match spawn_server(&ctx.bins, &cfg, &ctx.scratch, &format!("{}-again", tag), None) {
+                Ok(mut sp2) => {
+                    out.obs("immediate_restarts_on_same_ports", 1);
+                    match sp2.wait_ready(&pk, Duration::from_secs(10)) {
+                        Ok(_) => {
+                            if let Some(hp) = cfg.health_check_port {
+                                match health_once(hp, Duration::from_secs(3)) {
+                                    Ok(r) if r.starts_with(HTTP_PREFIX) => out.obs("health_checks_after_restart_ok", 1),
+                                    other => out.violation("C15 restart health-unanswered", &format!("after an immediate restart on the same ports the health check is not answered: {:?}", other), desc.clone()),
+                                }
+                            }
+                        }
+                        Err(e) => {
+                            let o = sp2.output();
+                            let foreign = o.contains("Address already in use") && std::net::UdpSocket::bind(("127.0.0.1", cfg.port)).is_err() && sp2.exited().is_some() && false;
+                            if !foreign {
+                                out.violation(
+                                    &format!("C15 restart did-not-serve workers={} health={}", if nworkers > 1 { ">1" } else { "1" }, cfg.health_check_port.is_some()),
+                                    &format!("the configuration served, was stopped with SIGTERM and started again at once on the same ports: {}; output: {}", e, o.lines().filter(|l| l.contains("panicked") || l.contains("ERROR") || l.contains("failed")).take(3).collect::<Vec<_>>().join(" / ")),
+                                    desc,
+                                );
+                            }
+                        }
+                    }
+                    sp2.signal(libc::SIGTERM);
+                    if sp2.wait_exit(Duration::from_secs(10)).is_none() {
+                        sp2.kill();
+                    }
+                }
+                Err(_) => out.inconclusive("spawn failed"),
             }
         }
         return;
@@ -462,7 +513,7 @@ pub fn run(ctx: &Ctx, out: &mut Out) {
                                 let env = (w + b + f + si + st as u32 + h as u32) % 2 == 0;
                                 let mut c = SrvCfg::new(0, &rng.bytes(32));
                                 c.num_workers = Some(w);
-                                c.health_check_port = if h { Some(1) } else { None };
+                                c.health_check_port = if h { Some(if grid.len() % 11 == 5 { 2 } else { 1 }) } else { None };
                                 c.batch_size = Some(b);
                                 c.fault_percentage = Some(f);
                                 c.status_interval = Some(si);
@@ -515,6 +566,9 @@ pub fn run(ctx: &Ctx, out: &mut Out) {
                 c.persistence_directory = Some(persist.clone());
             }
             c.via_env = extra % 4 < 2;
+            if extra % 4 == 2 {
+                c.health_check_port = Some(2);
+            }
             grid.push(c);
         }
     }
